@@ -246,6 +246,10 @@ pub fn serve_credssp(io: &mut ServerIo, srv: &Value) -> bool {
     // C07: the whole first reply may be faulted (Faults.tla descriptors)
     if let Some(fs) = srv.get("challenge_faults").and_then(|x| x.as_array()) { for d in fs { first = crate::faults::apply(&first, d); } }
     if io.send(&first, "TsReqChallenge").is_err() { return false; }
+    // the server may hang up right behind a reply (a reader waiting for bytes that were announced but never come must
+    // see the end of the stream as an error, not wait or spin)
+    let close_mode = srv.get("close_mode").and_then(|x| x.as_str()).unwrap_or("notify").to_string();
+    if srv.get("close_after").and_then(|x| x.as_str()) == Some("challenge") { io.close(&close_mode); return false; }
     let r2 = match io.recv_der() { Ok(b) => b, Err(_) => return false };
     let t2 = match parse_ts_request(&r2) { Some(t) => t, None => return false };
     let (auth_tok, pka) = match (t2.nego, t2.pub_key_auth) { (Some(a), Some(p)) => (a, p), _ => return false };
@@ -258,6 +262,7 @@ pub fn serve_credssp(io: &mut ServerIo, srv: &Value) -> bool {
     let req = crate::nlafault::final_request(srv, version, &client_pub, &key, &mut s2c, &pka);
     if io.send(&req, "TsReqPubKeyAuth").is_err() { return false; }
     if let Some(e) = io.events.last_mut() { e.as_object_mut().unwrap().insert("fault".into(), json!(crate::nlafault::kind_of(srv))); }
+    if srv.get("close_after").and_then(|x| x.as_str()) == Some("final") { io.close(&close_mode); return false; }
     // uniform observation whatever was sent: the client either closes (EOF) or sends its third TSRequest
     let r3 = match io.recv_der() { Ok(b) => b, Err(_) => return false };
     let t3 = match parse_ts_request(&r3) { Some(t) => t, None => return false };
